@@ -256,8 +256,8 @@ impl Walrus {
                 }
             }
             if let Some(s) = path.to_str() {
-                // skip index files
-                if s.ends_with("_index.db") {
+                // skip index files and their in-flight/leftover temporary copies
+                if s.ends_with("_index.db") || s.ends_with("_index.db.tmp") {
                     continue;
                 }
                 files.push(s.to_string());
